@@ -133,11 +133,9 @@ func extractUserRuleLevels(userConfig *Config, mergedConf *Config, providedRuleL
 			if userHasConfiguredRule && userConfig.Rules[categoryName][ruleName].Level != "" {
 				// if the user config has a level for the rule, use that
 				selectedRuleLevel = userConfig.Rules[categoryName][ruleName].Level
-			} else if categoryDefault, ok := mergedConf.Defaults.Categories[categoryName]; ok {
+			} else if categoryDefault, ok := mergedConf.Defaults.Categories[categoryName]; ok && categoryDefault.Level != "" {
 				// if the config has a default level for the category, use that
-				if categoryDefault.Level != "" {
-					selectedRuleLevel = categoryDefault.Level
-				}
+				selectedRuleLevel = categoryDefault.Level
 			} else if mergedConf.Defaults.Global.Level != "" {
 				// if the config has a global default level, use that
 				selectedRuleLevel = mergedConf.Defaults.Global.Level
